@@ -77,4 +77,157 @@ theorem matmul_kernel_adjoint_right (m k n : Nat) (A B X : Nat → Nat → S) :
   rw [sumRange_congr_adj h2, sumRange_comm (fun r j => B t j * (A r t * X r j)) n m]
   exact sumRange_congr_adj (fun j => sumRange_smul (B t j) m (fun r => A r t * X r j))
 
+/-! ### building blocks for lifting the kernel identity to buffers: flat sums as nested sums, `dot` as a sum -/
+
+theorem sumRange_add_split (a : Nat) (f : Nat → S) : ∀ b : Nat,
+    sumRange (a + b) f = sumRange a f + sumRange b (fun j => f (a + j))
+  | 0 => by rw [Nat.add_zero, sumRange_zero_adj, add_zero']
+  | b + 1 => by
+    rw [← Nat.add_assoc, sumRange_succ_adj, sumRange_add_split a f b, sumRange_succ_adj, AddLaws.add_assoc]
+
+/-- a sum over a row-major buffer of `m` rows of length `n` is the sum over the rows of the row sums -/
+theorem sumRange_mul_split (n : Nat) (f : Nat → S) : ∀ m : Nat,
+    sumRange (m * n) f = sumRange m (fun r => sumRange n (fun j => f (r * n + j)))
+  | 0 => by rw [Nat.zero_mul]; rfl
+  | m + 1 => by
+    rw [Nat.succ_mul, sumRange_add_split, sumRange_mul_split n f m, sumRange_succ_adj]
+
+theorem sumRange_one_adj (f : Nat → S) : sumRange 1 f = f 0 := by
+  rw [sumRange_succ_adj, sumRange_zero_adj, AddLaws.zero_add]
+
+theorem sumRange_succ_front (n : Nat) (f : Nat → S) : sumRange (n + 1) f = f 0 + sumRange n (fun i => f (i + 1)) := by
+  rw [Nat.add_comm n 1, sumRange_add_split, sumRange_one_adj]
+  congr 1
+  exact sumRange_congr_adj (fun j => by rw [Nat.add_comm])
+
+/-- `⟨u, v⟩` as an indexed sum -/
+theorem dot_eq_sumRange : ∀ (u v : List S), u.length = v.length →
+    dot u v = sumRange u.length (fun i => u.getD i zero * v.getD i zero)
+  | [], _, _ => rfl
+  | a :: u, [], h => by simp at h
+  | a :: u, b :: v, h => by
+    rw [dot_cons, List.length_cons, sumRange_succ_front, dot_eq_sumRange u v (by simpa using h)]
+    rfl
+
+theorem sumRange_congr_lt : ∀ (n : Nat) {f g : Nat → S}, (∀ t, t < n → f t = g t) → sumRange n f = sumRange n g
+  | 0, _, _, _ => rfl
+  | n + 1, f, g, h => by
+    rw [sumRange_succ_adj, sumRange_succ_adj, sumRange_congr_lt n (fun t ht => h t (by omega)), h n (by omega)]
+
+theorem getD_map_range_adj (N : Nat) (f : Nat → S) (i : Nat) (hi : i < N) : ((List.range N).map f).getD i zero = f i := by
+  simp [List.getD_eq_getElem?_getD, hi]
+
+/-- the row-major buffer of the product of an `m×k` by a `k×n` buffer -/
+def mmBuf (m k n : Nat) (av bv : List S) : List S :=
+  (List.range (m * n)).map (fun i => sumRange k (fun t => av.getD (i / n * k + t) zero * bv.getD (t * n + i % n) zero))
+
+/-- the row-major buffer of `X · Bᵀ` (`X : m×n`, `B : k×n`), the left closure's product -/
+def mmBufT (m n k : Nat) (xv bv : List S) : List S :=
+  (List.range (m * k)).map (fun i => sumRange n (fun j => bv.getD (i % k * n + j) zero * xv.getD (i / k * n + j) zero))
+
+/-- **buffer level, left operand**: for row-major buffers of an `m×k` operand, a `k×n` operand and an `m×n`
+    delta, `⟨A·B, X⟩ = ⟨A, X·Bᵀ⟩`. -/
+theorem mmBuf_adjoint_left (m k n : Nat) (av bv xv : List S) (ha : av.length = m * k) (hx : xv.length = m * n) :
+    dot (mmBuf m k n av bv) xv = dot av (mmBufT m n k xv bv) := by
+  have hn : ∀ r j, j < n → (r * n + j) / n = r ∧ (r * n + j) % n = j := by
+    intro r j hj
+    have hpos : 0 < n := by omega
+    constructor
+    · rw [Nat.mul_comm, Nat.mul_add_div hpos, Nat.div_eq_of_lt hj, Nat.add_zero]
+    · rw [Nat.mul_comm, Nat.mul_add_mod, Nat.mod_eq_of_lt hj]
+  have hk : ∀ r t, t < k → (r * k + t) / k = r ∧ (r * k + t) % k = t := by
+    intro r t ht
+    have hpos : 0 < k := by omega
+    constructor
+    · rw [Nat.mul_comm, Nat.mul_add_div hpos, Nat.div_eq_of_lt ht, Nat.add_zero]
+    · rw [Nat.mul_comm, Nat.mul_add_mod, Nat.mod_eq_of_lt ht]
+  have hlt : ∀ (r c w : Nat), r < m → c < w → r * w + c < m * w := by
+    intro r c w hr hc
+    calc r * w + c < r * w + w := by omega
+      _ = (r + 1) * w := by rw [Nat.succ_mul]
+      _ ≤ m * w := Nat.mul_le_mul_right w hr
+  rw [dot_eq_sumRange _ _ (by simp [mmBuf, hx]), dot_eq_sumRange _ _ (by simp [mmBufT, ha])]
+  have l1 : (mmBuf m k n av bv).length = m * n := by simp [mmBuf]
+  rw [l1, ha, sumRange_mul_split, sumRange_mul_split]
+  rw [sumRange_congr_lt m (g := fun r => sumRange n (fun j =>
+      sumRange k (fun t => av.getD (r * k + t) zero * bv.getD (t * n + j) zero) * xv.getD (r * n + j) zero))
+    (fun r hr => sumRange_congr_lt n (fun j hj => by
+      show (mmBuf m k n av bv).getD (r * n + j) zero * _ = _
+      rw [mmBuf, getD_map_range_adj _ _ _ (hlt r j n hr hj), (hn r j hj).1, (hn r j hj).2]))]
+  rw [matmul_kernel_adjoint_left m k n (fun r t => av.getD (r * k + t) zero) (fun t j => bv.getD (t * n + j) zero)
+    (fun r j => xv.getD (r * n + j) zero)]
+  refine sumRange_congr_lt m (fun r hr => sumRange_congr_lt k (fun t ht => ?_))
+  show _ = av.getD (r * k + t) zero * (mmBufT m n k xv bv).getD (r * k + t) zero
+  rw [mmBufT, getD_map_range_adj _ _ _ (hlt r t k hr ht), (hk r t ht).1, (hk r t ht).2]
+
+/-! ### two matrices: the identity on the specification product `specMatmul` itself -/
+
+/-- the row-major buffer of `Aᵀ · X` (`A : m×k`, `X : m×n`), the right closure's product -/
+def mmBufTL (k m n : Nat) (av xv : List S) : List S :=
+  (List.range (k * n)).map (fun i => sumRange m (fun r => av.getD (r * k + i / n) zero * xv.getD (r * n + i % n) zero))
+
+/-- **buffer level, right operand**: `⟨A·B, X⟩ = ⟨B, Aᵀ·X⟩`. -/
+theorem mmBuf_adjoint_right (m k n : Nat) (av bv xv : List S) (hb : bv.length = k * n) (hx : xv.length = m * n) :
+    dot (mmBuf m k n av bv) xv = dot bv (mmBufTL k m n av xv) := by
+  have hn : ∀ r j, j < n → (r * n + j) / n = r ∧ (r * n + j) % n = j := by
+    intro r j hj
+    have hpos : 0 < n := by omega
+    constructor
+    · rw [Nat.mul_comm, Nat.mul_add_div hpos, Nat.div_eq_of_lt hj, Nat.add_zero]
+    · rw [Nat.mul_comm, Nat.mul_add_mod, Nat.mod_eq_of_lt hj]
+  have hlt : ∀ (r c w h : Nat), r < h → c < w → r * w + c < h * w := by
+    intro r c w h hr hc
+    calc r * w + c < r * w + w := by omega
+      _ = (r + 1) * w := by rw [Nat.succ_mul]
+      _ ≤ h * w := Nat.mul_le_mul_right w hr
+  rw [dot_eq_sumRange _ _ (by simp [mmBuf, hx]), dot_eq_sumRange _ _ (by simp [mmBufTL, hb])]
+  have l1 : (mmBuf m k n av bv).length = m * n := by simp [mmBuf]
+  rw [l1, hb, sumRange_mul_split, sumRange_mul_split]
+  rw [sumRange_congr_lt m (g := fun r => sumRange n (fun j =>
+      sumRange k (fun t => av.getD (r * k + t) zero * bv.getD (t * n + j) zero) * xv.getD (r * n + j) zero))
+    (fun r hr => sumRange_congr_lt n (fun j hj => by
+      show (mmBuf m k n av bv).getD (r * n + j) zero * _ = _
+      rw [mmBuf, getD_map_range_adj _ _ _ (hlt r j n m hr hj), (hn r j hj).1, (hn r j hj).2]))]
+  rw [matmul_kernel_adjoint_right m k n (fun r t => av.getD (r * k + t) zero) (fun t j => bv.getD (t * n + j) zero)
+    (fun r j => xv.getD (r * n + j) zero)]
+  refine sumRange_congr_lt k (fun t ht => sumRange_congr_lt n (fun j hj => ?_))
+  show _ = bv.getD (t * n + j) zero * (mmBufTL k m n av xv).getD (t * n + j) zero
+  rw [mmBufTL, getD_map_range_adj _ _ _ (hlt t j n k ht hj), (hn t j hj).1, (hn t j hj).2]
+
+/-- the product the right closure forms (other operand, transposed; delta) is `Aᵀ·X` -/
+theorem specMatmul_2d_vals_TL (a x : Tensor S) (m k n : Nat) (ha : a.dims = [m, k]) (hx : x.dims = [m, n]) :
+    (specMatmul a true x false none).vals = mmBufTL k m n a.vals x.vals := by
+  simp only [specMatmul, Tensor.ofFn, ha, hx, mmBufTL]
+  simp [bdims, bdimsRev, prod, unflatten, proj, Tensor.get, rowMajor, ha, hx, AddLaws.zero_add]
+
+/-- the specification product of two matrices is the row-major product buffer -/
+theorem specMatmul_2d_vals (a b : Tensor S) (m k n : Nat) (ha : a.dims = [m, k]) (hb : b.dims = [k, n]) :
+    (specMatmul a false b false none).vals = mmBuf m k n a.vals b.vals := by
+  simp only [specMatmul, Tensor.ofFn, ha, hb, mmBuf]
+  simp [bdims, bdimsRev, prod, unflatten, proj, Tensor.get, rowMajor, ha, hb, AddLaws.zero_add]
+
+/-- the product the left closure forms (delta, untransposed; other operand, transposed) is `X·Bᵀ` -/
+theorem specMatmul_2d_vals_T (x b : Tensor S) (m k n : Nat) (hx : x.dims = [m, n]) (hb : b.dims = [k, n]) :
+    (specMatmul x false b true none).vals = mmBufT m n k x.vals b.vals := by
+  simp only [specMatmul, Tensor.ofFn, hx, hb, mmBufT]
+  simp [bdims, bdimsRev, prod, unflatten, proj, Tensor.get, rowMajor, hx, hb, AddLaws.zero_add]
+  intro i _
+  exact sumRange_congr_adj (fun t => CommLaws.mul_comm _ _)
+
+theorem matmul2d_adjoint_left (a b x : Tensor S) (m k n : Nat) (ha : a.dims = [m, k]) (hb : b.dims = [k, n])
+    (hx : x.dims = [m, n]) (hwa : a.WF) (hwx : x.WF) :
+    dot (specMatmul a false b false none).vals x.vals = dot a.vals (specMatmul x false b true none).vals := by
+  rw [specMatmul_2d_vals a b m k n ha hb, specMatmul_2d_vals_T x b m k n hx hb]
+  apply mmBuf_adjoint_left
+  · rw [← hwa.2, ha]; simp [prod]
+  · rw [← hwx.2, hx]; simp [prod]
+
+theorem matmul2d_adjoint_right (a b x : Tensor S) (m k n : Nat) (ha : a.dims = [m, k]) (hb : b.dims = [k, n])
+    (hx : x.dims = [m, n]) (hwb : b.WF) (hwx : x.WF) :
+    dot (specMatmul a false b false none).vals x.vals = dot b.vals (specMatmul a true x false none).vals := by
+  rw [specMatmul_2d_vals a b m k n ha hb, specMatmul_2d_vals_TL a x m k n ha hx]
+  apply mmBuf_adjoint_right
+  · rw [← hwb.2, hb]; simp [prod]
+  · rw [← hwx.2, hx]; simp [prod]
+
 end Corgi
